@@ -637,3 +637,102 @@ def count_nodes(y):
     if y[0] == 'L':
         return 1 + sum(count_nodes(x) for x in y[1])
     return 1 + sum(count_nodes(v) for _, v in y[1])
+
+
+# --------------------------------------------------------------------------- targeted sets
+def targeted_sets(seed):
+    """Hand-shaped families aimed at the case splits of the proofs; contents
+    vary with the seed.  Returns [(name, docs)]."""
+    r = random.Random('c14-targeted:%d' % seed)
+    w = lambda: S(r.choice(['x', 'y', 'zed', 'w1', 'q']))
+    out = []
+    base = M([('u', M([('name', w()), ('items', L([w(), w(), w()])), ('sub', M([('k', w())]))])),
+              ('v', L([M([('id', S('1'))]), M([('id', S('2'))])]))])
+    # 1. two includers of one node, one of them patched / merged over: the other and the source must not move
+    for form in ('patch-set', 'patch-append', 'override-merge', 'override-append', 'patch-index'):
+        one = [('__include', S('base:/u'))]
+        if form == 'patch-set':
+            one.append(('__patch', M([('sub/k', w()), ('name', w())])))
+        elif form == 'patch-append':
+            one.append(('__patch', M([('items/+', L([w(), w()])), ('name/+', w())])))
+        elif form == 'override-merge':
+            one.append(('sub', M([('k2', w())])))
+        elif form == 'override-append':
+            one.append(('items', M([('__append', L([w()]))])))
+        else:
+            one.append(('__patch', M([('items/@%d' % r.randint(0, 2), w())])))
+        docs = {'base': base,
+                'alpha': M([('one', M(one)), ('two', M([('__include', S('base:/u'))])),
+                            ('three', M([('__include', S('base:/u/sub'))]))])}
+        out.append(('sibling-includers:' + form, docs))
+    # 2. root-level include of a whole document, with and without own keys
+    out.append(('root-include:bare', {'base': base, 'alpha': M([('__include', S('base:/'))])}))
+    out.append(('root-include:merge', {'base': base, 'alpha': M([('__include', S('base:/')), ('u', M([('name', w())]))])}))
+    out.append(('root-include:patch', {'base': base, 'alpha': M([('__include', S('base:/')), ('__patch', M([('u/items/@next', w())]))])}))
+    # 3. every list-index form, on a local list and on an included list
+    forms = ['@0', '@2', '@5', '@next', '@last', '@before 0', '@before 1', '@before 3', '@before 5',
+             '@after 0', '@after 2', '@after 4', '@before last', '@after last']
+    for f in forms:
+        docs = {'base': base,
+                'alpha': M([('loc', M([('l', L([S('a'), S('b'), S('c')])), ('__patch', M([('l/' + f, w())]))])),
+                            ('inc', M([('__include', S('base:/u')), ('__patch', M([('items/' + f, w())]))])),
+                            ('empty', M([('l', L([])), ('__patch', M([('l/' + f, w())]))]))])}
+        out.append(('index-form:' + f, docs))
+    # 4. patch order: several patches hit the same key; literal, list and referenced patches
+    docs = {'alpha': M([('t', M([('k', S('0')), ('__patch', L([M([('k', S('1'))]), S('/p/a'), M([('k/+', S('3'))])]))])),
+                        ('p', M([('a', M([('k', S('2')), ('__patch', S('/p/b'))])), ('b', M([('z', S('9'))]))]))])}
+    out.append(('patch-order:list', docs))
+    docs = {'alpha': M([('t', M([('__patch', M([('k', S('late'))])), ('k', S('early')), ('__include', S('/src'))])),
+                        ('src', M([('k', S('inc')), ('j', S('keep'))]))])}
+    out.append(('patch-order:include-before-patch', docs))
+    # 5. optional / missing references
+    docs = {'alpha': M([('a', M([('__include', S('nosuch:/x?')), ('k', w())])),
+                        ('b', M([('__patch', L([S('nosuch:/p?'), S('/missing/here?'), M([('k', w())])]))])),
+                        ('c', M([('__include', S('beta:/none/such?')), ('k', w())]))]),
+            'beta': M([('x', w())])}
+    out.append(('optional:missing', docs))
+    docs = {'alpha': M([('a', M([('__include', S('nosuch:/x')), ('k', w())])), ('b', w())])}
+    out.append(('error:missing-required', docs))
+    # 6. custom patch over includes, .schema with default menu and presets
+    docs = {'base': base,
+            'alpha': M([('s', M([('__include', S('base:/u'))])), ('t', w())]),
+            'alpha.custom': M([('patch', M([('s/items/@next', w()), ('t', w()), ('s/sub/+', M([('z', w())]))]))])}
+    out.append(('custom:over-include', docs))
+    docs = {'default': M([('menu', M([('page_size', S('5'))])),
+                          ('key_binder', M([('bindings', L([S('d1')])), ('k', S('v'))]))]),
+            'luna.schema': M([('menu', M([('alt', S('1'))])),
+                              ('key_binder', M([('import_preset', S('default')), ('bindings', L([S('mine')]))]))]),
+            'luna.custom': M([('patch', M([('menu/page_size', S('7'))]))])}
+    out.append(('schema:menu+preset+custom', docs))
+    # 7. cycles of every planted kind
+    out.append(('cycle:self', {'alpha': M([('cy', M([('__include', S('/cy'))]))])}))
+    out.append(('cycle:mutual', {'alpha': M([('cy', M([('__include', S('beta:/cz')), ('a', S('1'))]))]),
+                                 'beta': M([('cz', M([('__include', S('alpha:/cy')), ('b', S('2'))]))])}))
+    out.append(('cycle:patch-vs-include', {'alpha': M([('test', M([('__patch', S('sometimes?')), ('home', S('excited')),
+                                                                    ('work', M([('__include', S('/test/home'))]))])),
+                                                        ('sometimes', M([('home', S('naive'))]))])}))
+    return out
+
+
+def to_json(docs):
+    def j(y):
+        if y[0] == 'N':
+            return None
+        if y[0] == 'S':
+            return y[1]
+        if y[0] == 'L':
+            return [j(x) for x in y[1]]
+        return {'__map__': [[k, j(v)] for k, v in y[1]]}
+    return {d: j(y) for d, y in docs.items()}
+
+
+def from_json(obj):
+    def u(v):
+        if v is None:
+            return N
+        if isinstance(v, str):
+            return S(v)
+        if isinstance(v, list):
+            return L([u(x) for x in v])
+        return M([(k, u(x)) for k, x in v['__map__']])
+    return {d: u(v) for d, v in obj.items()}
